@@ -109,6 +109,7 @@ fn synth_all_font(with_gsub: bool) -> Vec<u8> {
         typ: "single".into(),
         ext: false,
         sub: 256,
+        l2: false,
         objs: vec![Obj { kind: "cov".into(), pos: 264, content: "A".into() }],
         nested: vec![],
     }];
@@ -266,6 +267,8 @@ struct LSpec {
     typ: String,
     ext: bool,
     sub: usize,
+    /// the feature also belongs to the second language system (TRK) of the table
+    l2: bool,
     objs: Vec<Obj>,
     nested: Vec<usize>,
 }
@@ -282,6 +285,7 @@ fn lspecs(lookups: &Value) -> Vec<LSpec> {
                     typ: l["typ"].as_str().unwrap().into(),
                     ext: l["ext"].as_bool().unwrap(),
                     sub: l["sub"].as_u64().unwrap() as usize,
+                    l2: l["l2"].as_bool().unwrap_or(false),
                     objs: l["objs"].as_array().unwrap().iter().map(|o| Obj {
                         kind: o["kind"].as_str().unwrap().into(),
                         pos: o["pos"].as_u64().unwrap() as usize,
@@ -342,7 +346,8 @@ fn classdef_bytes(content: &str) -> Vec<u8> {
     w.done()
 }
 
-/// A GSUB or GPOS table (version 1.0; scripts DFLT and latn, default language system only) holding the
+/// A GSUB or GPOS table (version 1.0; scripts DFLT and latn sharing one Script table: a default language
+/// system with every feature and a language system TRK with the features marked `l2`) holding the
 /// lookups of `specs` that belong to `tbl`, every sub-table and every Coverage/ClassDef object at the
 /// absolute position the layout names.  `single`: SingleSubst format 1 (glyph + 32) / SinglePos format 1
 /// (advance + 100).  `class`: ContextSubst format 2 (glyphs of class 1 get lookup nested[0]) / PairPos
@@ -358,10 +363,15 @@ fn build_layout(tbl: &str, specs: &[LSpec]) -> Vec<u8> {
     let script_list = 10usize;
     let mut w = W::new();
     w.u16(2).tag("DFLT").u16(14).tag("latn").u16(14);
-    w.u16(4).u16(0); // Script: default LangSys at 4
+    let l2: Vec<usize> = (0..feats.len()).filter(|i| specs.iter().any(|s| s.feat == feats[*i] && s.l2)).collect();
+    w.u16(10).u16(1).tag("TRK ").u16((10 + 6 + 2 * feats.len()) as u16); // Script: default LangSys at 10, one more
     w.u16(0).u16(0xFFFF).u16(feats.len() as u16);
     for i in 0..feats.len() {
         w.u16(i as u16);
+    }
+    w.u16(0).u16(0xFFFF).u16(l2.len() as u16);
+    for i in &l2 {
+        w.u16(*i as u16);
     }
     let sl = w.done();
     img.put(script_list, &sl);
@@ -508,6 +518,7 @@ fn collide_font(name: &str, desc: &Value) -> FontCfg {
         fam: "collide",
         damage: Damage::default(),
         desc: desc.clone(),
+        l2feats: feats.iter().filter(|f| specs.iter().any(|s| &s.feat == *f && s.l2)).cloned().collect(),
         feats,
     }
 }
@@ -573,7 +584,28 @@ fn collide_selfcheck(cfg: &FontCfg) -> Value {
         let (_, fresh) = run_both(cfg, &[], &c);
         outs.insert(fresh);
     }
-    json!({"font": cfg.name, "objects_expected": expected, "objects_found_at_position": found, "tables_over_64k": big,
+    // the second language system has its own features only
+    let shape_l = |lang: Option<u32>, f: &[&str], custom: bool| {
+        let c = Call::Shape {
+            text: COLLIDE_TEXT.into(),
+            script: cfg.scripts[0],
+            lang,
+            mask: f.iter().fold(0u64, |m, t| m | FeatureMask::from_tag(tag_u32(t)).bits()),
+            custom,
+            ctags: f.iter().map(|t| tag_u32(t)).collect(),
+            tuple: None,
+            kern: false,
+        };
+        run_both(cfg, &[], &c).1
+    };
+    let trk = Some(tagv("TRK "));
+    let l2_ok = [true, false].iter().all(|cu| {
+        shape_l(trk, &["liga"], *cu) == shape_l(None, &[], *cu)
+            && shape_l(trk, &["dlig"], *cu) == shape_l(None, &["dlig"], *cu)
+            && shape_l(trk, &["dlig"], *cu) != shape_l(None, &[], *cu)
+            && shape_l(None, &["liga"], *cu) != shape_l(None, &[], *cu)
+    });
+    json!({"font": cfg.name, "second_language_system_effective": l2_ok, "objects_expected": expected, "objects_found_at_position": found, "tables_over_64k": big,
            "alias_pairs_u16": u16p, "alias_pairs_u8": u8p, "alias_pairs_rel": relp, "alias_pairs_lookup_index_u8": idxp,
            "feature_sets": sets.len(), "distinct_results": outs.len()})
 }
@@ -590,8 +622,9 @@ struct FontCfg {
     damage: Damage,
     /// the abstract font descriptor of FontCache.tla
     desc: Value,
-    /// collide fonts: the features of the layout
+    /// collide fonts: the features of the layout, and those of its second language system (TRK)
     feats: Vec<String>,
+    l2feats: Vec<String>,
 }
 
 fn tagv(s: &str) -> u32 {
@@ -615,6 +648,7 @@ fn fonts() -> Vec<FontCfg> {
         damage: Damage::default(),
         desc: plain_desc(),
         feats: vec![],
+        l2feats: vec![],
     };
     let mut v = vec![synth("synth-fv", synth_fv_font()), synth("synth-all", synth_all_font(true)), synth("synth-morx", synth_all_font(false))];
     for (name, path, scripts, lang, words) in [
@@ -637,6 +671,7 @@ fn fonts() -> Vec<FontCfg> {
                 damage: Damage::default(),
                 desc: plain_desc(),
                 feats: vec![],
+                l2feats: vec![],
             });
         }
     }
@@ -648,6 +683,10 @@ fn damage_bases(all: &[FontCfg]) -> Vec<FontCfg> {
     all.iter().filter(|c| ["synth-all", "synth-morx", "opensans", "lohit-hi", "sbix-dupe", "svg-gzipped"].contains(&c.name.as_str())).cloned().collect()
 }
 
+fn is_l2(feat: &str) -> bool {
+    ["dlig", "rlig", "smcp"].contains(&feat)
+}
+
 /// Layout of the collide fonts as MC_FontCache defines it, with the low sub-tables moved by `shift`
 /// (even, < 128) and the far ones by `far` (a multiple of 65536): the random histories use their own.
 fn collide_desc(tbls: &[&str], shift: usize, far: usize) -> Value {
@@ -656,11 +695,11 @@ fn collide_desc(tbls: &[&str], shift: usize, far: usize) -> Value {
         let gsub = *tbl == "GSUB";
         let single = |idx: usize, feat: &str, sub: usize, content: &str| {
             json!({"tbl": tbl, "idx": idx, "feat": feat, "typ": "single", "ext": sub >= 65536, "sub": sub,
-                   "objs": [{"kind": "cov", "pos": sub + 8, "rel": 8, "content": content}], "nested": []})
+                   "l2": is_l2(feat), "objs": [{"kind": "cov", "pos": sub + 8, "rel": 8, "content": content}], "nested": []})
         };
         let class = |idx: usize, feat: &str, sub: usize, content: &str| {
             json!({"tbl": tbl, "idx": idx, "feat": feat, "typ": "class", "ext": sub >= 65536, "sub": sub,
-                   "objs": [{"kind": "cov", "pos": sub + 32, "rel": 32, "content": if gsub { "EFG" } else { "X" }},
+                   "l2": is_l2(feat), "objs": [{"kind": "cov", "pos": sub + 32, "rel": 32, "content": if gsub { "EFG" } else { "X" }},
                             {"kind": "cls", "pos": sub + 64, "rel": 64, "content": content}],
                    "nested": if gsub { vec![6] } else { vec![] }})
         };
@@ -836,7 +875,7 @@ fn concretise(c: &Value, cfg: &FontCfg) -> Call {
             Call::Shape {
             text: cfg.words[0].clone(),
             script: if s("script") == "s1" { cfg.scripts[0] } else { cfg.scripts[1] },
-            lang: Some(cfg.lang),
+            lang: Some(if s("lang") == "l2" { tagv("TRK ") } else { cfg.lang }),
             // m1 and m2 must stay different after gsub_apply_default intersects them with the
             // features the font supports (the cache key uses the intersected mask); on a collide font
             // the mask is the set of features the call names
@@ -1025,7 +1064,8 @@ fn abstract_of(c: &Call, cfg: &FontCfg) -> Value {
             // the features of the layout (collide fonts) that this call enables
             let feats: Vec<&String> = cfg.feats.iter().filter(|f| {
                 let t = tag_u32(f);
-                if *custom { ctags.contains(&t) } else { FeatureMask::from_tag(t).bits() & *mask != 0 }
+                (*lang != Some(tagv("TRK ")) || cfg.l2feats.contains(f))
+                    && if *custom { ctags.contains(&t) } else { FeatureMask::from_tag(t).bits() & *mask != 0 }
             }).collect();
             json!({"op": "Shape", "text": text, "script": format!("{:08x}", script), "lang": format!("{:?}", lang),
                    "mask": if *custom { format!("custom{:?}", ctags) } else { format!("{:x}", eff) },
@@ -1103,7 +1143,7 @@ fn random_call(rng: &mut StdRng, cfg: &FontCfg) -> Call {
             Call::Shape {
                 text: cfg.words.choose(rng).unwrap().clone(),
                 script: cfg.scripts[rng.gen_range(0..2)],
-                lang: if rng.gen_bool(0.5) { Some(cfg.lang) } else { None },
+                lang: [Some(cfg.lang), None, Some(tagv("TRK ")), Some(tagv("TRK "))][rng.gen_range(0..4)],
                 mask: fs.iter().fold(0u64, |m, t| m | FeatureMask::from_tag(*t).bits()),
                 custom: rng.gen_bool(0.5),
                 ctags: fs,
